@@ -51,8 +51,15 @@ thread_local! {
 }
 pub static GLOBAL_DISTINCT: std::sync::Mutex<Option<U64Set>> = std::sync::Mutex::new(None);
 const DISTINCT_CAP: usize = 6_000_000;
+/// Once the global set holds this many hashes the count is reported as a lower bound and no more
+/// hashes are collected (the set would otherwise serialise the workers of the thorough tier).
+const GLOBAL_CAP: usize = 16_000_000;
+static FULL: std::sync::atomic::AtomicBool = std::sync::atomic::AtomicBool::new(false);
 
 pub fn note_nontrivial(c: &Case) {
+    if FULL.load(std::sync::atomic::Ordering::Relaxed) {
+        return;
+    }
     DISTINCT.with(|s| {
         let mut s = s.borrow_mut();
         if s.len() < DISTINCT_CAP {
@@ -67,9 +74,10 @@ pub fn flush_distinct() {
         if s.len() > 200_000 {
             let mut g = GLOBAL_DISTINCT.lock().unwrap();
             let g = g.get_or_insert_with(U64Set::default);
-            if g.len() < 8 * DISTINCT_CAP {
+            if g.len() < GLOBAL_CAP {
                 g.extend(s.drain());
             } else {
+                FULL.store(true, std::sync::atomic::Ordering::Relaxed);
                 s.clear();
             }
         }
